@@ -143,7 +143,7 @@ func runC06(seed uint64, n int, outDir string, replay string) {
 		o.NewCase()
 		o.Op("newcase")
 		ans("ok")
-		rg := cwRegime{preTx: rc.Chance(20)}
+		rg := cwRegime{preTx: c%5 == 4}
 		cwSetParams(rg)
 		func() {
 			defer func() {
@@ -158,6 +158,9 @@ func runC06(seed uint64, n int, outDir string, replay string) {
 			}
 			defer safeStop(w.node)
 			w.hunt = c == 0 || rc.Chance(50)
+			if c%2 == 1 {
+				w.qiBoost = 1 + rc.Intn(3) // blocks that spend several outputs while several denominations are being trimmed
+			}
 			var reps []*c06Replica
 			ldb, err := rawdb.NewLevelDBDatabase(fmt.Sprintf("%s/l%d", tmp, c), 16, 16, "", false, log.Global, w.node.loc)
 			if err != nil {
@@ -265,6 +268,23 @@ func runC06(seed uint64, n int, outDir string, replay string) {
 					}
 				}
 				o.Count(fmt.Sprintf("blocktxs:%d", min(len(blk.Transactions())/4*4, 16)))
+				{
+					// which shapes of removal the block exercised: outputs spent by transactions, and how many
+					// denominations' trimming passes removed something (each pass is its own goroutine in Finalize)
+					spent, _ := rawdb.ReadSpentUTXOs(w.node.db, blk.Hash())
+					trimmed, _ := rawdb.ReadTrimmedUTXOs(w.node.db, blk.Hash())
+					den := map[uint8]bool{}
+					for _, t := range trimmed {
+						den[t.Denomination] = true
+					}
+					if len(trimmed) > 0 {
+						o.Count(fmt.Sprintf("trim:block-with-%d-denominations-trimmed", min(len(den), 3)))
+						if len(den) >= 2 && len(spent) >= 3 {
+							o.Count("trim:two-passes-and-three-or-more-spent")
+						}
+					}
+					o.Count(fmt.Sprintf("spent-per-block:%d", min(len(spent), 6)))
+				}
 				if st.order == common.REGION_CTX {
 					o.Count("region-blocks")
 				}
